@@ -1,6 +1,7 @@
 package cachesim
 
 import (
+	"runtime"
 	"bufio"
 	"encoding/json"
 	"fmt"
@@ -209,6 +210,10 @@ func TestWorker(t *testing.T) {
 			}
 			if idle || stalled >= 25 {
 				emit(outLine{T: "hang", I: curIdx.Load(), Seed: curSeed.Load()})
+				// where is everybody? (diagnostics for the crash report)
+				buf := make([]byte, 1<<20)
+				n := runtime.Stack(buf, true)
+				fmt.Fprintf(os.Stderr, "worker watchdog: no scheduling progress (idle=%v, looks=%d) in run %d seed %d; goroutines:\n%s\n", idle, stalled, curIdx.Load(), curSeed.Load(), buf[:n])
 				os.Exit(3)
 			}
 		}
